@@ -254,6 +254,64 @@ func askMethodScenarioF(n int, byOptions, factory bool, bound int) *vsched.Scena
 	}
 }
 
+// edgeScenario: (i) a timeout of zero or below: the ask itself may time out or be answered, and the actor
+// must serve the next request whichever happened; (ii) one Ask object used for several requests in a
+// row through AskChannel: every request is answered.
+func edgeScenario(kind string, bound int) *vsched.Scenario {
+	fam := "edge-" + kind
+	return &vsched.Scenario{
+		Name:     "ask/edge/" + kind,
+		Bound:    bound,
+		TimerDev: true,
+		Body: func() {
+			vsched.PoolRetain = 0
+			actor := fpgo.ActorNewGenerics(func(self *fpgo.ActorDef[interface{}], msg interface{}) {
+				a := msg.(*fpgo.AskDef[int, int])
+				vsched.Yield()
+				a.Reply(answer(a.Message))
+			})
+			vsched.GoNamed("asker", func() {
+				switch kind {
+				case "timeout-zero", "timeout-negative":
+					d := time.Duration(0)
+					if kind == "timeout-negative" {
+						d = -time.Millisecond
+					}
+					v, err := fpgo.AskNewGenerics[int, int](1).AskOnceWithTimeout(actor, d)
+					vsched.Event("first", v, err == nil, err == fpgo.ErrActorAskTimeout)
+					vsched.Event("second", fpgo.AskNewGenerics[int, int](2).AskOnce(actor))
+				case "ask-object-reused":
+					a := fpgo.AskNewGenerics[int, int](3)
+					for round := 1; round <= 3; round++ {
+						vsched.Event("round", round, <-a.AskChannel(actor))
+					}
+				}
+			})
+		},
+		Check: func(r *vsched.Result) []vsched.Failure {
+			fs := e1.Basic("C13", fam, r, nil)
+			if len(r.Panics) > 0 || len(fs) > 0 {
+				return fs
+			}
+			if kind == "ask-object-reused" {
+				for round := 1; round <= 3; round++ {
+					if e1.Count(r, "round", round, answer(3)) != 1 {
+						fs = append(fs, e1.Fail("C13|"+fam+"|wrong-answer", "request %d made with the same Ask object did not get its answer %d: %v", round, answer(3), r.Events))
+					}
+				}
+				return fs
+			}
+			if e1.Count(r, "first", answer(1), true, false)+e1.Count(r, "first", 0, false, true) != 1 {
+				fs = append(fs, e1.Fail("C13|"+fam+"|wrong-answer", "the ask with a timeout <= 0 returned neither its answer nor (0, ErrActorAskTimeout): %v", r.Events))
+			}
+			if e1.Count(r, "second", answer(2)) != 1 {
+				fs = append(fs, e1.Fail("C13|"+fam+"|later-request", "the request after the timed-out one was not answered with %d: %v", answer(2), r.Events))
+			}
+			return fs
+		},
+	}
+}
+
 func scenarios(tier string) []*vsched.Scenario {
 	b := 2
 	if tier == "thorough" {
@@ -290,6 +348,7 @@ func scenarios(tier string) []*vsched.Scenario {
 			}
 		}
 	}
+	out = append(out, edgeScenario("timeout-zero", b), edgeScenario("timeout-negative", b), edgeScenario("ask-object-reused", b))
 	out = append(out, askMethodScenario(2, false, b), askMethodScenario(2, true, b), askMethodScenarioF(2, false, true, b), askMethodScenarioF(2, true, true, b))
 	for _, pool := range []int{0, 1, 2} {
 		for _, lat := range [][]string{{"edge", "now"}, {"now", "edge", "now"}, {"late", "now"}, {"never", "now", "now"}} {
